@@ -36,6 +36,14 @@ def log(*a):
 RACE_OPTS = "exitcode=0 suppress_equal_stacks=0 suppress_equal_addresses=0"
 
 
+def sweep_for(spec, tspec, hname):
+    """fault-position sweeps apply to the harnesses named in sweep_only (all if absent)"""
+    only = spec.get("sweep_only")
+    if only and hname not in only:
+        return ""
+    return tspec.get("sweep", "")
+
+
 def worker_env(extra):
     e = dict(os.environ)
     e.update({"GOMAXPROCS": "1", "GODEBUG": "asyncpreemptoff=1,randautoseed=0,randseednop=0", "GOTRACEBACK": "single"})
@@ -88,15 +96,18 @@ def main():
     shutil.rmtree(rdir, ignore_errors=True)
     os.makedirs(rdir, exist_ok=True)
     deadline = int(time.time() + seconds)
+    # a property may be decided in more than one simulated world: workers are dealt out
+    # over the harnesses (worker w runs seeds seed*1e7 + w + k*workers in harness w mod n)
+    harnesses = spec.get("harnesses") or [spec["harness"]]
     per = (runs_cap + workers - 1) // workers
     procs = []
     t_run = time.time()
     for w in range(workers):
         env = worker_env({
-            "VERIF_MODE": "run", "VERIF_HARNESS": spec["harness"], "VERIF_PROPERTY": prop, "VERIF_TIER": tier,
+            "VERIF_MODE": "run", "VERIF_HARNESS": harnesses[w % len(harnesses)], "VERIF_PROPERTY": prop, "VERIF_TIER": tier,
             "VERIF_SEED0": seed * 10_000_000 + w, "VERIF_STRIDE": workers, "VERIF_N": per,
             "VERIF_OUT": os.path.join(work, "w%d.jsonl" % w), "VERIF_REPLAY_DIR": rdir, "VERIF_DEADLINE": deadline,
-            "VERIF_SWEEP": tspec.get("sweep", ""),
+            "VERIF_SWEEP": sweep_for(spec, tspec, harnesses[w % len(harnesses)]),
         })
         if race:
             env["GORACE"] = RACE_OPTS
@@ -139,18 +150,25 @@ def main():
     det_checked = det_bad = 0
     sample = [r for r in results if not r.get("violations")][:: max(1, len(results) // 24)][:24]
     if sample and not trouble:
-        seeds = ",".join(str(r["seed"]) for r in sample)
-        env = worker_env({"VERIF_MODE": "run", "VERIF_HARNESS": spec["harness"], "VERIF_PROPERTY": prop, "VERIF_TIER": tier,
-                          "VERIF_SEED_LIST": seeds, "VERIF_OUT": os.path.join(work, "det.jsonl"), "VERIF_REPLAY_DIR": work,
-                          "VERIF_SWEEP": tspec.get("sweep", ""), "VERIF_MAX_VIOL": 0})
-        if race:
-            env["GORACE"] = RACE_OPTS
-        rc = subprocess.run([binp, "-test.run", "^TestSim$", "-test.timeout", "0"], env=env, stdout=subprocess.DEVNULL, stderr=subprocess.DEVNULL, cwd=work).returncode
+        rc = 0
         again = {}
-        if os.path.exists(os.path.join(work, "det.jsonl")):
-            for line in open(os.path.join(work, "det.jsonl")):
-                d = json.loads(line)
-                again.setdefault(d["seed"], []).append(d["trace_hash"])
+        for hi, hname in enumerate(harnesses):
+            mine = [r for r in sample if ((r["seed"] - seed * 10_000_000) % workers) % len(harnesses) == hi]
+            if not mine:
+                continue
+            seeds = ",".join(str(r["seed"]) for r in mine)
+            detf = os.path.join(work, "det%d.jsonl" % hi)
+            env = worker_env({"VERIF_MODE": "run", "VERIF_HARNESS": hname, "VERIF_PROPERTY": prop, "VERIF_TIER": tier,
+                              "VERIF_SEED_LIST": seeds, "VERIF_OUT": detf, "VERIF_REPLAY_DIR": work,
+                              "VERIF_SWEEP": sweep_for(spec, tspec, hname), "VERIF_MAX_VIOL": 0})
+            if race:
+                env["GORACE"] = RACE_OPTS
+            rc1 = subprocess.run([binp, "-test.run", "^TestSim$", "-test.timeout", "0"], env=env, stdout=subprocess.DEVNULL, stderr=subprocess.DEVNULL, cwd=work).returncode
+            rc = rc or rc1
+            if os.path.exists(detf):
+                for line in open(detf):
+                    d = json.loads(line)
+                    again.setdefault(d["seed"], []).append(d["trace_hash"])
         first = collections.defaultdict(list)
         for r in results:
             first[r["seed"]].append(r["trace_hash"])
@@ -260,10 +278,11 @@ def main():
             "probes_expected_but_zero": zero,
             "determinism_reruns": det_checked, "determinism_mismatches": det_bad,
             "known_findings_hit": dict(known_hits),
-            "components": COMPONENTS.get(spec["harness"], {}),
+            "components": {"real": sorted({x for h in harnesses for x in COMPONENTS.get(h, {}).get("real", [])}),
+                           "stub": sorted({x for h in harnesses for x in COMPONENTS.get(h, {}).get("stub", [])})},
             "maporder": (binfo or {}).get("maporder"),
             "workers": workers, "build_s": round(build_s, 1), "run_s": round(run_s, 1),
-            "harness": spec["harness"],
+            "harness": "+".join(harnesses),
             "exhaustive": False,
         },
         "assumptions": spec.get("assumptions", []),
@@ -287,7 +306,10 @@ def main():
     if trouble:
         for tmsg in trouble[:10]:
             log("HARNESS TROUBLE:", tmsg)
-        return 2
+        # a violation that reproduced from its replay file in a fresh process stands on its
+        # own feet whatever else went wrong in the batch; without one, trouble is exit 2
+        if not nviol:
+            return 2
     if n == 0:
         log("no runs completed")
         return 2
